@@ -66,6 +66,15 @@ Tags(r) ==
                                             IN  /\ OnBd(rt[h[1]]) /\ OnBd(rt[h[1] + 1]) /\ Own(rt[h[1]]) # {} /\ Own(rt[h[1] + 1]) # {}
                                                 /\ \A j \in Own(rt[h[1]]) \cup Own(rt[h[1] + 1]) : j < h[2]
                          THEN {"through-shape:crossing-only-at-shape-vertices:between-vertices-of-earlier-shapes-on-its-boundary"}
+                         \* the case decided by the rotational sweep's on-border bookkeeping (vertexSweep): both ends of the pierced segment are vertices
+                         \* of neighbours lying strictly inside VERTICAL sides of the pierced shape.  (The unchanged library fails only when those
+                         \* sides are horizontal -- that is F30 -- so the two orientations are told apart.)
+                         ELSE IF \A h \in hits : LET P == r.polys[h[2]]
+                                                     InVSide(p) == /\ \E j \in 1..Len(P) : P[Prev(P, j)][1] = P[j][1] /\ OnSeg(P[Prev(P, j)], P[j], p)
+                                                                   /\ \A j \in 1..Len(P) : P[j] # p
+                                                     Own(p) == {j \in DOMAIN r.polys : j # h[2] /\ \E v \in 1..Len(r.polys[j]) : r.polys[j][v] = p}
+                                                 IN  InVSide(rt[h[1]]) /\ InVSide(rt[h[1] + 1]) /\ Own(rt[h[1]]) # {} /\ Own(rt[h[1] + 1]) # {}
+                         THEN {"through-shape:crossing-only-at-shape-vertices:between-neighbour-vertices-inside-its-vertical-sides"}
                          ELSE {"through-shape:crossing-only-at-shape-vertices"})
                    ELSE {"through-shape"})
 NonTrivial(r) == ~r.thrown /\ Len(r.disp) > 2
